@@ -236,8 +236,11 @@ def step_case(rng, cfgname, thumb, code, mode=None, it=None, e=None, code_base=N
         devs.append((0, 0x80))
     if code_base != 0xFFFF0000 and code_base != 0xFFFFFF00:
         devs.append((0xFFFF0000, 0x40))
-    devs.append(DATA)
-    devs.append(DATA2)          # abuts DATA: accesses that run off the end of the data device continue in another device
+    # a second device abuts the data device: accesses that run off its end continue in another device. The boundary is not always at a multiple of 4 / 8:
+    # devices of odd sizes are legal, and an aligned access can then straddle two devices
+    d1 = DATA[1] + rng.choice((0, 0, 0, 0, 0, 1, 2, 3, 5, -1, -2, -3))
+    devs.append((DATA[0], d1))
+    devs.append((DATA[0] + d1, DATA2[1]))
     ptrs = [DATA[0], DATA[0] + DATA[1], DATA[0] + 0x80, code_base, code_base + 0x100, 0, 0xFFFFFFFC]
     st = gen_core(rng, ptrs)
     pc = (code_base + 0x40 + pc_off) & M32
